@@ -227,7 +227,7 @@ def run_c07(c):
     _attsec.model_check(c, big, "C07", 4 if c.quick else 6, 0, C07_INV, nc=2)
     _attsec.model_check(c, small, "C07", 3 if c.quick else 5, 0, C07_INV, nc=3)
     counts = {}
-    nsim, dsim = (150, 14) if c.quick else (2500, 16)
+    nsim, dsim = (60, 14) if c.quick else (1500, 16)
     plan = [(big, 3, 2), (small, 2, 3)] if c.quick else [(big, 3, 3), (small, 3, 2), (big, 4, 1)]
 
     def one(job):
